@@ -206,9 +206,69 @@ class DetPool:
         DetPool.runs.append(s)
         if s["watchdog"]:
             raise Watchdog("controlled schedule did not finish")
-        if errors:
+        self._errors = errors
+        if errors and not getattr(self, "_lazy", False):
             raise errors[0][1]
         return results
+
+    def starmap(self, fn, iterable, chunksize=None):
+        return self.map(lambda args: fn(*args), iterable)
+
+    def _lazy_results(self, fn, iterable):
+        """imap / imap_unordered: everything runs under the scheduler now, errors surface only when the
+        returned iterator is consumed (as with the real pool's result iterators)."""
+        self._lazy = True
+        try:
+            results = self.map(fn, iterable)
+        finally:
+            self._lazy = False
+        errors = dict(self._errors)
+
+        def it():
+            for i, r in enumerate(results):
+                if i in errors:
+                    raise errors[i]
+                yield r
+        return it()
+
+    def imap(self, fn, iterable, chunksize=1):
+        return self._lazy_results(fn, iterable)
+
+    def imap_unordered(self, fn, iterable, chunksize=1):
+        return self._lazy_results(fn, iterable)
+
+    def map_async(self, fn, iterable, chunksize=None, callback=None, error_callback=None):
+        pool = self
+
+        class Result:
+            def __init__(self):
+                pool._lazy = True
+                try:
+                    self.value = pool.map(fn, iterable)
+                finally:
+                    pool._lazy = False
+                self.errors = list(pool._errors)
+
+            def get(self, timeout=None):
+                if self.errors:
+                    raise self.errors[0][1]
+                return self.value
+
+            def wait(self, timeout=None):
+                pass
+
+            def ready(self):
+                return True
+
+            def successful(self):
+                return not self.errors
+        return Result()
+
+    def apply_async(self, fn, args=(), kwds=None, callback=None, error_callback=None):
+        return self.map_async(lambda _: fn(*args, **(kwds or {})), [None])
+
+    def apply(self, fn, args=(), kwds=None):
+        return self.map(lambda _: fn(*args, **(kwds or {})), [None])[0]
 
 
 def catii_codes():
